@@ -25,7 +25,7 @@ EXCLUDED = re.compile(r"&[#\w]+;|<\s*.+?\s*>")
 WORDY = ["\u00e9", "\u00df", "\u0416", "\u4e2d", "\u0663", "\u1e13", "\u0250"]      # é ß Ж 中 ٣ ḓ ɐ
 SPACEY = [" ", "\u00a0", "\u0085", "\u3000", "\u2003", "\u2028"]
 OTHER = ["\u20ac", "\U0001F600", "\u2192", "\u00ab", "\u2200", "\u202a"]               # € 😀 → « ∀ LRE
-TOKENS = (["<", ">", "&", ";", "#", "/", "=", "\"", " ", "  ", "\n", "\t", "a", "e", "o", "u", "b", "z", "A", "E", "Z", "Q",
+TOKENS = (["<", ">", "&", ";", "#", "/", "=", "\"", " ", "  ", "\n", "\t", "\r", "\x0b", "\x0c", "a", "e", "o", "u", "b", "z", "A", "E", "Z", "Q",
            "1", "_", "-", ".", "x", "Hello", "World", "<b>", "</b>", "<br/>", "<a href=\"x\">", "< i >", "&amp;", "&#x202a;",
            "&lt;", "& amp;", "&amp", "<>", "< >", "<\n>", "[", "]"] + WORDY + SPACEY + OTHER)
 EXH = ["<", ">", "&", ";", "e", " ", "é", "\n"]
@@ -87,7 +87,7 @@ class C20(Base):
     LEMMA_FILES = ["FluentProofs/Pseudo.lean"]
     RULE = ("hand-written sentences and markup edge cases (tags/entities at start, end, adjacent, nested-looking, "
             "unterminated, whitespace and newline inside tags, multi-byte characters around and inside them) x all 8 flag "
-            "combinations for transform_dom and x 4 for transform; token soup of <= 10 tokens over 62 tokens (markup "
+            "combinations for transform_dom and x 4 for transform; token soup of <= 10 tokens over 66 tokens (markup "
             "characters, letters incl. a e o u, ready-made tags/entities, 2/3/4-byte characters of the classes word / "
             "space / other); thorough adds all strings of <= 6 tokens over {<, >, &, ;, e, space, e-acute, newline} "
             "(300 k) with rotating flags. Non-trivial = the input has an ASCII letter and (for dom) at least one "
